@@ -7,7 +7,7 @@ and only here — with the Lean BLAKE2b of `Hash/Blake2b.lean` (digest_size / pe
 
 ops
   {"op":"blake2b","hex":h}                      -> {"hex": digest}
-  {"op":"hash","v":V}                           -> {"hex": hash_function(V), "alone": pure hash}  | {"error": tag}
+  {"op":"hash","v":V[,"alone":true]}            -> {"hex": hash_function(V)[, "alone": pure hash]}  | {"error": tag}
   {"op":"hash_ctx","vs":[V...]}                 -> {"hexes":[...]}  all hashed with ONE shared Cache, in order
   {"op":"checksum","task":T}                    -> {"checksum": "...", "hash": "..."} | {"error": tag}
   {"op":"sorted","xs":[V...]}                   -> {"order":[indices]}   what `sorted` does to the list (model's pySorted)
